@@ -191,6 +191,7 @@ class LoopInv:
 
     def run_for(self, ip, st, frame, seq):
         n = seq.length
+        ip.ghost.setdefault('loop_len', {})[self.name] = n
         assigned = _assigned_names(st.body) | _target_names(st.target)
         self._body = st.body
         self._infer_renames(ip, frame, assigned, _target_names(st.target))
